@@ -1161,7 +1161,9 @@ type env struct {
 	c        *vlib.Cases
 	r        *vlib.Rng
 	tr       *anthropic.Translator
-	thorough bool
+	// trBase / trInsp: the translator with the debugging inspector off (default) / on (translators.anthropic.inspector.enabled)
+	trBase, trInsp *anthropic.Translator
+	thorough       bool
 }
 
 func (e *env) streamCase(class string, lines []Line, comp *completion, withBuffered bool) {
@@ -1205,7 +1207,7 @@ func (e *env) streamCase(class string, lines []Line, comp *completion, withBuffe
 	}
 	impl := map[string]any{"events": first.events, "err": first.err, "panic": first.panic, "timeout": first.timeout,
 		"chunkings": len(ks), "chunk_equal": equal, "content_type": first.ctype}
-	m := map[string]any{"kind": "stream", "class": class, "lines": lines, "impl": impl, "saw_done": sawDone(lines, so)}
+	m := map[string]any{"kind": "stream", "class": class, "lines": lines, "impl": impl, "saw_done": sawDone(lines, so), "inspector": e.tr == e.trInsp && e.trInsp != nil}
 	if len(sse) <= 3000 && !(e.thorough && len(sse) > 1200) {
 		m["sse"] = strings.ToValidUTF8(sse, "\uFFFD")
 	}
@@ -1352,6 +1354,12 @@ func main() {
 	tier := vlib.Tier()
 	e := &env{c: vlib.OpenCases("cases.jsonl"), r: vlib.NewRng(vlib.Seed()).Fork(), thorough: tier == "thorough",
 		tr: anthropic.NewTranslator(vlib.QuietLogger(), config.AnthropicTranslatorConfig{Enabled: true, MaxMessageSize: 10 << 20})}
+	e.trBase = e.tr
+	if dir, err := os.MkdirTemp(vlib.OutDir(), "inspector"); err == nil {
+		defer os.RemoveAll(dir)
+		e.trInsp = anthropic.NewTranslator(vlib.QuietLogger(), config.AnthropicTranslatorConfig{Enabled: true, MaxMessageSize: 10 << 20,
+			Inspector: config.InspectorConfig{Enabled: true, OutputDir: dir, SessionHeader: "X-Session-ID"}})
+	}
 	r := e.r
 
 	if p := vlib.ReplayPath(); p != "" {
@@ -1377,7 +1385,10 @@ func main() {
 			_ = json.Unmarshal(sb, &segs)
 			comp = &completion{segs: segs}
 		}
-		e.streamCase("replay", lines, comp, false)
+		if v, _ := fc["inspector"].(bool); v && e.trInsp != nil {
+			e.tr = e.trInsp
+		}
+		e.streamCase("replay", lines, comp, comp != nil)
 		e.c.Close(map[string]any{"replay": p})
 		return
 	}
@@ -1420,6 +1431,29 @@ func main() {
 			}
 		}
 		comp := genCompletion(r, shape, big)
+		// the inspector (a configuration option that only logs) on for a quarter of the cases; a long text (more runes than
+		// any log abbreviation threshold in sight) now and then
+		e.tr = e.trBase
+		if e.trInsp != nil && r.Chance(1, 4) {
+			e.tr = e.trInsp
+			e.c.Count("inspector.on")
+		}
+		bigText := big == 0 && r.Chance(1, 60)
+		if bigText {
+			for si := range comp.segs {
+				if comp.segs[si].T == "text" {
+					unit := vlib.Pick(r, []string{"lorem ipsum ", "é", "模型 ", "a"})
+					total := vlib.Pick(r, []int{32768, 32769, 40000, 70000})
+					np := 1 + r.Intn(6)
+					ps := make([]string, np)
+					for pi := range ps {
+						ps[pi] = strings.Repeat(unit, total/np/len([]rune(unit))+1)
+					}
+					comp.segs[si].Pieces = ps
+					break
+				}
+			}
+		}
 		o := renderOpts{usageMode: vlib.Pick(r, []int{0, 0, 0, 1, 1, 2, 3}), groupFrags: r.Chance(1, 4), mixed: r.Chance(1, 25),
 			emptyTools: r.Chance(1, 10), roleFirst: r.Chance(2, 3), contentNull: r.Chance(1, 3), finishOnLast: r.Chance(1, 5)}
 		lines := toLines(r, comp, o)
@@ -1428,8 +1462,11 @@ func main() {
 		class := fmt.Sprintf("completion.shape%d", shape)
 		if big > 0 {
 			class = "completion.big-arguments"
+		} else if bigText {
+			class = "completion.big-text"
 		}
 		e.streamCase(class, lines, &comp, true)
+		e.tr = e.trBase
 		if noise > 0 {
 			e.c.Count("noise.level" + strconv.Itoa(noise))
 		}
